@@ -21,7 +21,7 @@ import z3
 
 from pyvc import sorts as S
 from pyvc.sorts import Node, I, B
-from pyvc.symex import Obj, is_node, is_z3, PyRaise, ExcVal, Unsupported, PathAbort, DictVal
+from pyvc.symex import Builtin, Obj, is_node, is_z3, PyRaise, ExcVal, Unsupported, PathAbort, DictVal
 from pyvc import builtins_impl as BI
 from pyvc.harness import Variant
 from pyvc.world import Contract
@@ -226,6 +226,156 @@ def variants(world, tier="quick", only=None):
         for dirs in (("min",), ("max", "min"), ("min", "max", "max")):
             out.append(MultiVariant(world, "boxed_optimize", dirs, mx))
             out.append(MultiVariant(world, "lexicographic_optimize", dirs, mx))
+    if only:
+        out = [v for v in out if any(o in v.name for o in only)]
+    return out
+
+
+# ---------------------------------------------------------------------------
+# MaxSMTGoal.term(): the objective of a weighted soft-clause goal
+# ---------------------------------------------------------------------------
+class MaxSmtTermVariant(Variant):
+    """term() of a goal with k soft clauses (c_i, w_i): a term of the weights' sort whose value under every interpretation is
+    the sum of the weights of the clauses that hold (what a MaxSMT optimum maximises)."""
+    prop_ids = ("C18",)
+    bounded = "arity"
+    qualname = "pysmt.optimization.goal.MaxSMTGoal.term"
+
+    def __init__(self, world, k, real):
+        self.world, self.k, self.real = world, k, real
+        self.name = "goal:maxsmt-term[%d clauses/%s weights]" % (k, "Real" if real else "Int")
+
+    def setup(self, ex):
+        W = self.world
+        env = core.make_env(ex, W)
+        W.custom_globals[("pysmt.optimization.goal", "get_env")] = Builtin("get_env", lambda exx, a, kw: env)
+        T = S.RealT if self.real else S.IntT
+        self.cs, self.ws = [], []
+        for i in range(self.k):
+            c, w = z3.Const("clause%d" % i, Node), z3.Const("weight%d" % i, Node)
+            for x in (c, w):
+                W.touch(ex, x)
+            ex.assume(S.type_of(c) == S.BoolT)
+            ex.assume(S.type_of(w) == T)
+            ex.assume(S.isconst(w))
+            self.cs.append(c)
+            self.ws.append(w)
+        self.g = Obj("pysmt.optimization.goal.MaxSMTGoal", {"soft": [(c, w) for c, w in zip(self.cs, self.ws)], "_bv_signed": False,
+                                                             "_real_weights": self.real}, tag="goal")
+        fi = W.repo.func(self.qualname)
+        return W.wrap_func(fi, fi.module, bound=self.g), [], {}
+
+    def check(self, ex, outcome):
+        kind, r = outcome
+        if kind == "raise":
+            return [("no-exception", z3.BoolVal(False))]
+        if not is_node(r):
+            return [("returns-term", z3.BoolVal(False))]
+        W = self.world
+        W.touch(ex, r)
+        num = (lambda n: S.Val.vr(S.val(n))) if self.real else (lambda n: S.Val.vi(S.val(n)))
+        zero = z3.RealVal(0) if self.real else z3.IntVal(0)
+        want = z3.Sum([z3.If(S.Val.vb(S.val(c)), num(w), zero) for c, w in zip(self.cs, self.ws)]) if self.k > 1 else \
+            z3.If(S.Val.vb(S.val(self.cs[0])), num(self.ws[0]), zero)
+        return [("sort-of-the-weights", S.type_of(r) == (S.RealT if self.real else S.IntT)),
+                ("value-is-the-weight-of-the-satisfied-clauses", num(r) == want)]
+
+
+_base_variants18m = variants
+
+
+def variants(world, tier="quick", only=None):
+    out = _base_variants18m(world, tier, None)
+    for real in (False, True):
+        for k in (1, 2, 3):
+            out.append(MaxSmtTermVariant(world, k, real))
+    if only:
+        out = [v for v in out if any(o in v.name for o in only)]
+    return out
+
+
+class GoalInitVariant(Variant):
+    """MinMaxGoal(terms, sign) / MaxMinGoal(terms, sign): the objective is the maximum / minimum of the terms (the constructor
+    of C06, signed or unsigned as requested for bit-vectors), the goal minimises / maximises it, and it reports the signedness
+    it was built with (the comparison functions of the search are chosen from it)."""
+    prop_ids = ("C18",)
+    bounded = "arity"
+
+    def __init__(self, world, cls, sort, sign):
+        self.world, self.cls, self.sort, self.sign = world, cls, sort, sign
+        self.qualname = "pysmt.optimization.goal.%s.__init__" % cls
+        self.name = "goal:%s[%s/%s]" % (cls, sort, "signed" if sign else "unsigned")
+
+    def setup(self, ex):
+        W = self.world
+        env = core.make_env(ex, W)
+        W.custom_globals[("pysmt.optimization.goal", "get_env")] = Builtin("get_env", lambda exx, a, kw: env)
+        mgr = env.fields["_formula_manager"]
+        self.terms = [z3.Const("term%d" % i, Node) for i in range(2)]
+        for t in self.terms:
+            W.touch(ex, t)
+            ex.assume(S.type_of(t) == (S.BVT(z3.Const("width", I)) if self.sort == "bv" else S.IntT))
+        if self.sort == "bv":
+            ex.assume(z3.Const("width", I) >= 1)
+        self.calls = []
+        v = self
+
+        def rec(name):
+            def fn(exx, a, kw):
+                r = exx.fresh("objective", Node)
+                W.touch(exx, r)
+                v.calls.append((name, list(a[1:]), r))
+                return r
+            return fn
+        for nm in ("Max", "Min", "MaxBV", "MinBV"):
+            c = Contract()
+            c.qualname = "pysmt.formula.FormulaManager." + nm
+            c.apply = rec(nm)
+            c.world = W
+            W.contracts[c.qualname] = c
+        self.g = Obj("pysmt.optimization.goal." + self.cls, {}, tag="goal")
+        fi = W.repo.func(self.qualname)
+        return W.wrap_func(fi, fi.module, bound=self.g), [list(self.terms), self.sign], {}
+
+    def check(self, ex, outcome):
+        kind, r = outcome
+        if kind == "raise":
+            return [("no-exception", z3.BoolVal(False))]
+        W = self.world
+        want = ("Max" if self.cls == "MinMaxGoal" else "Min") + ("BV" if self.sort == "bv" else "")
+        goals = [("objective-built-once", z3.BoolVal(len(self.calls) == 1))]
+        if len(self.calls) == 1:
+            nm, a, res = self.calls[0]
+            goals.append(("objective-is-the-%s-of-the-terms" % ("maximum" if self.cls == "MinMaxGoal" else "minimum"), z3.BoolVal(nm == want)))
+            if self.sort == "bv":
+                goals.append(("signedness-passed-to-the-constructor", z3.BoolVal(len(a) == 2 and a[0] is self.sign)))
+                ts = BI.iterate(W, ex, a[1]) if len(a) == 2 else []
+            else:
+                ts = BI.iterate(W, ex, a[0]) if len(a) >= 1 else []
+                if len(a) > 1:
+                    ts = list(a)
+            goals.append(("over-exactly-the-terms", z3.And([x == y for x, y in zip(ts, self.terms)]) if len(ts) == len(self.terms) else z3.BoolVal(False)))
+            fi = W.repo.method("pysmt.optimization.goal." + self.cls, "term")
+            t = ex.call(W.wrap_func(fi, fi.module, bound=self.g), [], {})
+            goals.append(("term()-is-the-objective", (t == res) if is_node(t) else z3.BoolVal(False)))
+        sg = W.getattr(ex, self.g, "signed")
+        goals.append(("reports-the-signedness-it-was-built-with", z3.BoolVal(sg is self.sign)))
+        for meth, val in (("is_minimization_goal", self.cls == "MinMaxGoal"), ("is_maximization_goal", self.cls == "MaxMinGoal")):
+            fi = W.repo.method("pysmt.optimization.goal." + self.cls, meth)
+            b = ex.call(W.wrap_func(fi, fi.module, bound=self.g), [], {})
+            goals.append(("direction:%s" % meth, z3.BoolVal(b is val)))
+        return goals
+
+
+_base_variants18n = variants
+
+
+def variants(world, tier="quick", only=None):
+    out = _base_variants18n(world, tier, None)
+    for cls in ("MinMaxGoal", "MaxMinGoal"):
+        for sort in ("int", "bv"):
+            for sign in ((False, True) if sort == "bv" else (False,)):
+                out.append(GoalInitVariant(world, cls, sort, sign))
     if only:
         out = [v for v in out if any(o in v.name for o in only)]
     return out
